@@ -13,6 +13,22 @@ CLAIMED = {
          "for sigma_s >= sigma_c; z3 5.1 as the deciding solver; rounding is outside the claim"),
    technique="symbolic execution of the real Python functions on z3 Real proxies (path forking) + SMT (QF_NRA) validity queries; counterexamples replayed on floats",
    ref='4/C03'),
+
+ 'C04': dict(
+   text=("Relational bounded symbolic model checking: two or more symbolic runs of the real neutron code are compared in one "
+         "solver query (density scaling, count scaling, regrouping/reordering, energy= vs wavelength=, vector vs scalar "
+         "through real numpy broadcasting), plus the conversion algebra and non-negativity; valid for all real values of "
+         "counts, masses, scattering lengths, density, wavelength on the enumerated shapes."),
+   note="floats as exact reals; sqrt stub; abs/maximum by forking; vector length <= 2 (3 thorough); anchors 1.798 A/2200 m/s/25.3 meV are ground facts",
+   technique="symbolic execution of the real Python functions on z3 Real proxies; relational SMT (QF_NRA) validity queries; replay of counterexamples",
+   ref='4/C04'),
+ 'C17': dict(
+   text=("The real neutron_composite_sld closure (with numpy broadcasting over object arrays of z3-backed numbers) is executed "
+         "symbolically and each output entry is proven equal to neutron_sld of the weighted formula sum for all weights, "
+         "counts, density, wavelength and per-atom data; zero-weight / zero-density cases proven to give zeros."),
+   note="floats as exact reals; 1-3 materials (4 thorough); wavelength scalar/len-1/len-2 (3 thorough); energy-dependent branch exercised with a 3-node table of symbolic values (real Dy-164 table in thorough)",
+   technique="symbolic execution of the real Python closure on z3 Real proxies through numpy; SMT (QF_NRA) validity queries; replay of counterexamples",
+   ref='4/C17'),
 }
 
 NOT_APPLICABLE = [
